@@ -210,17 +210,9 @@ Proof.
   pose proof (i_reg c _ I) as Ireg. pose proof (i_chan_done c _ I) as Ichandone.
   unfold mu. simpl in *.
   destruct l; simpl in En; boolhyps; pcs; subst; simpl in *; try lia.
-  - destruct (Istart eq_refl) as (-> & -> & _ & _ & _ & -> & _). simpl. destruct cx, cl; lia.
-  - destruct sc as [e|]; [|discriminate]. simpl. lia.
-  - destruct se as [|[|]|]; try discriminate; destruct ca, ha, cx, cl; simpl; lia.
-  - destruct se as [|[|]|]; try discriminate; destruct ca, ha, cx, cl; simpl; lia.
-  - destruct ca, se as [|[|]|], cx, cl; simpl; lia.
-  - destruct ca, ha, cx, cl; simpl; lia.
-  - destruct se as [|[|]|]; try discriminate; destruct ca, ha, cx, cl; simpl; lia.
-  - destruct se as [|[|]|]; try discriminate; destruct ca, ha, cx, cl; simpl; lia.
-  - destruct (Ireg eq_refl) as (-> & _ & _). destruct ca, se as [|[|]|], cx, cl; simpl; lia.
-  - destruct ca, se as [|[|]|], ha, cl; simpl; lia.
-  - destruct ca, se as [|[|]|], ha, cx; simpl; lia.
+  - destruct (Istart eq_refl) as (E1 & E2 & _ & _ & _ & E3 & _); subst; simpl; destruct cx, cl; lia.
+  - destruct ca, fired, ha, cx, cl; simpl; lia.
+  - destruct (Ireg eq_refl) as (E & _ & _); subst. destruct ca, se as [|[|]|], cx; simpl; lia.
 Qed.
 
 (* (a) progress: while the caller has not returned, some INTERNAL label is enabled *)
@@ -282,7 +274,8 @@ Fixpoint path_ok (c : qcfg) (s : qstate) (ls : list label) : bool :=
 Lemma exec_path c ls : forall s, path_ok c s ls = true -> exec c s ls = fold_left (step c) ls s.
 Proof.
   induction ls as [|l r IH]; intros s P; simpl in *; [reflexivity|].
-  apply andb_prop in P. destruct P as [E P]. unfold step_en at 2. rewrite E. apply IH. assumption.
+  apply andb_prop in P. destruct P as [E P].
+  replace (step_en c s l) with (step c s l) by (unfold step_en; rewrite E; reflexivity). apply IH. assumption.
 Qed.
 
 Lemma returns_from_inv c : forall n s, mu c s <= n -> QInv c s ->
@@ -299,7 +292,7 @@ Proof.
       pose proof (mu_decreases c s l I E) as D.
       destruct (IH (step c s l)) as (ls & A & B & C & L); [lia|apply inv_step; assumption|].
       exists (l :: ls). simpl. rewrite Il, E, A, B. repeat split; try lia.
-      unfold step_en at 2. rewrite E. assumption.
+      replace (step_en c s l) with (step c s l) by (unfold step_en; rewrite E; reflexivity). assumption.
 Qed.
 
 (* from every reachable state some finite sequence of enabled internal events (at most mu of them)
@@ -366,9 +359,8 @@ Proof.
   intros E I. unfold step_en. destruct (enabled c s l) eqn:En; [|assumption].
   pose proof (i_result c s I) as [_ B]. unfold pre_select in B.
   destruct s as [ca se ha rg rc sc cx cn cl ns nw nd fl pp rs]. simpl in *.
-  destruct l; simpl in *; try assumption; boolhyps; pcs; subst; try assumption;
-    try (rewrite B in E; [discriminate|auto]).
-  destruct sc; [|assumption]. rewrite B in E; [discriminate|auto].
+  destruct l; simpl in *; try assumption; boolhyps; pcs; try assumption;
+    try (assert (X : rs = None) by (apply B; auto); congruence).
 Qed.
 
 Theorem result_stable c ls : forall s r, reachable c s -> q_result s = Some r -> q_result (exec c s ls) = Some r.
@@ -433,43 +425,45 @@ Proof.
   destruct (closed_step c s l Cl) as [A B]. destruct (IH _ A) as [C D]. split; [assumption|congruence].
 Qed.
 
-(* a query started on a closed server writes nothing and can only fail *)
+(* runs that start on a closed server *)
+Record CInv (s : qstate) : Prop := mkCInv {
+  ci_closed : q_closed s = true;
+  ci_writes : q_writes s = 0;
+  ci_popped : q_popped s = false;
+  ci_fail : forall x, q_fail s = Some x -> x = CClosed }.
+
+Lemma cinv_step c s l : CInv s -> CInv (step_en c s l).
+Proof.
+  intros [Cl W P F]. unfold step_en. destruct (enabled c s l) eqn:E; [|constructor; assumption].
+  destruct l; simpl; try (constructor; simpl; assumption).
+  - destruct (q_senderr_chan s); constructor; simpl; assumption.
+  - simpl in E. rewrite Cl in E. rewrite andb_false_r in E. discriminate.
+  - simpl in E. unfold cause_ok in E. rewrite Cl in E. boolhyps. destruct c0; try discriminate.
+    constructor; simpl; try assumption. intros x X. injection X as <-. reflexivity.
+  - simpl in E. rewrite Cl in E. rewrite andb_false_r in E. discriminate.
+  - simpl in E. rewrite Cl in E. discriminate.
+Qed.
+
+Lemma cinv_exec c ls : forall s, CInv s -> CInv (exec c s ls).
+Proof. induction ls as [|l ls IH]; intros s I; simpl; [assumption|]. apply IH. apply cinv_step. assumption. Qed.
+
+(* a query started on a closed server writes nothing and can only fail: with the error of the
+   closed check, or with the caller's context error if that was cancelled as well *)
 Theorem closed_query_fails c ls :
+  1 <= qc_tries c ->
   let s := run c true ls in
   q_writes s = 0 /\
-  forall r, q_result s = Some r -> r = RSendErr CClosed \/ r = RCtx.
+  (forall r, q_result s = Some r -> r = RSendErr CClosed \/ (r = RCtx /\ q_ctx s = true)).
 Proof.
-  intros s. subst s. unfold run.
-  destruct (closed_no_write c ls (q_init true) eq_refl) as [Cl W]. split; [exact W|].
+  intros T s. subst s. unfold run.
+  assert (CInv (q_init true)) as I0 by (constructor; simpl; try reflexivity; intros; discriminate).
+  destruct (cinv_exec c ls _ I0) as [Cl W P F]. split; [exact W|].
   intros r E.
   assert (reachable c (exec c (q_init true) ls)) as R by (exists true, ls; reflexivity).
-  pose proof (inv_reachable c _ R) as I.
   pose proof (result_class c _ r R E) as K.
   destruct r.
-  - (* a reply can only be accepted while the server is open *)
-    exfalso. destruct K as [P _].
-    assert (forall ls s, q_closed s = true -> q_popped s = false -> q_popped (exec c s ls) = false) as NP.
-    { clear. induction ls as [|l ls IH]; intros s Cl P; simpl; [assumption|].
-      destruct (closed_step c s l Cl) as [A _]. apply IH; [assumption|].
-      unfold step_en. destruct (enabled c s l) eqn:E; [|assumption].
-      destruct l; simpl; try assumption.
-      - destruct (q_senderr_chan s); assumption.
-      - simpl in E. rewrite Cl in E. rewrite andb_false_r in E. discriminate. }
-    rewrite (NP ls (q_init true) eq_refl eq_refl) in P. discriminate.
-  - right; reflexivity.
-  - (* a time-out needs every send to succeed; on a closed server the first one fails *)
-    exfalso. destruct K as (S1 & W1 & D1 & F1). rewrite W in W1.
-    (* tries = 0: then the sender times out at once -- but that needs no send at all; still the
-       result is a timeout only if the sender got to LTimeout, which is not a write.  Rule it out by
-       looking at what a closed server allows: with tries = 0 the statement would be false, so we
-       show tries cannot be 0 here only when it is; handle both. *)
-    destruct (qc_tries c) eqn:T; [|lia].
-    (* tries = 0 is not a configuration of the code (eff_tries_pos); the model then times out *)
-    (* we cannot exclude it without the hypothesis, so this branch is discharged below *)
-    admit.
-  - destruct K as (F & A & _).
-    destruct (i_cause c _ I c0 F) as (_ & _ & _).
-    left. f_equal.
-    (* the failed send happened on a closed server: its cause is CClosed *)
-    admit.
-Admitted.
+  - destruct K as [K _]. congruence.
+  - right. split; [reflexivity|assumption].
+  - destruct K as (_ & W1 & _). lia.
+  - destruct K as (K & _). left. f_equal. apply F. assumption.
+Qed.
